@@ -1,5 +1,6 @@
 import XV.Props.C03
 import XV.Props.C05
+import XV.Lemmas.InvTable
 /-!
 C02 — token conservation: supply changes only by coinbase, every token is in one place.
 Theorems about the UTXO table of the L1 chain model. `sumU` is the sum of all rows of table "U";
@@ -312,5 +313,207 @@ theorem doTx_keeps_conservation (e : Env) (s : St) (lh : Int) (i : Nat) (pending
 
 -- non-vacuity of the table lemmas on a concrete table
 example : sumU (put (del [((0, 0), ⟨"u0", 5, 0⟩), ((0, 1), ⟨"u1", 7, 0⟩)] (0, 0)) (3, 0) ⟨"u2", 5, 0⟩) = 12 := by decide
+
+-- ================================================================ undo sums (conservation carried to whole histories)
+
+/-- sum of the amounts cited by a list of inputs -/
+def insAmt (ins : List InRef) : Int := (ins.map (fun r => (r.amt : Int))).sum
+
+/-- restoring absent, pairwise distinct inputs adds exactly their cited amounts -/
+theorem restore_sum (ins : List InRef) (u : List (Ver × UItem)) (hn : UNodup u)
+    (habs : ∀ r ∈ ins, lookup u (r.tx, r.off) = none)
+    (hnd : (ins.map (fun r => (r.tx, r.off))).Nodup) :
+    UNodup (ins.foldl (fun u r => put u (r.tx, r.off) ⟨r.addr, r.amt, r.frozen⟩) u) ∧
+    sumU (ins.foldl (fun u r => put u (r.tx, r.off) ⟨r.addr, r.amt, r.frozen⟩) u) = sumU u + insAmt ins := by
+  induction ins generalizing u with
+  | nil => simp [hn, insAmt]
+  | cons r rest ih =>
+    simp only [List.map_cons, List.nodup_cons] at hnd
+    simp only [List.foldl_cons]
+    obtain ⟨i1, i2⟩ := ih (put u (r.tx, r.off) ⟨r.addr, r.amt, r.frozen⟩) (put_nodup _ _ _ hn)
+      (fun x hx => by
+        rw [lookup_put]
+        have : ¬ (r.tx, r.off) = (x.tx, x.off) := fun e => hnd.1 (List.mem_map.mpr ⟨x, hx, e.symm⟩)
+        simp [this, habs x (List.mem_cons_of_mem _ hx)]) hnd.2
+    refine ⟨i1, ?_⟩
+    rw [i2, sumU_put _ _ _ hn]
+    unfold amtAt
+    rw [habs r List.mem_cons_self]
+    simp only [insAmt, List.map_cons, List.sum_cons]
+    omega
+
+theorem paidOf_cons_skip (o : Out) (r : List Out) (hz : (o.addr == "$" || o.amt == 0) = true) :
+    paidOf (o :: r) = paidOf r := by
+  unfold paidOf
+  simp only [List.filter_cons]
+  by_cases hd : (o.addr == "$") = true
+  · simp [hd]
+  · have : o.amt = 0 := by simpa [hd] using hz
+    simp [hd, this]
+
+theorem paidOf_cons_mat (o : Out) (r : List Out) (hz : ¬ (o.addr == "$" || o.amt == 0) = true) :
+    paidOf (o :: r) = o.amt + paidOf r := by
+  have hd : (o.addr == "$") = false := by cases h : (o.addr == "$") <;> simp_all
+  unfold paidOf
+  simp only [List.filter_cons, hd, Bool.not_false, ↓reduceIte, List.map_cons, List.sum_cons]
+
+/-- removing the materialised outputs of a transaction that are rows of the table (with their amounts) removes exactly
+`paidOf` from the table and, for a coinbase, from the total -/
+theorem undoOuts_sum (t : Tx) (outs : List Out) (off : Nat) (s : St) (hn : UNodup s.U)
+    (hrows : ∀ idx o, outs[idx]? = some o → (o.addr == "$" || o.amt == 0) = false →
+      ∃ u, lookup s.U (t.id, off + idx) = some u ∧ u.amt = o.amt) :
+    UNodup (undoOuts t outs off s).U ∧ sumU (undoOuts t outs off s).U = sumU s.U - paidOf outs ∧
+    (undoOuts t outs off s).total = s.total - (if t.coinbase then paidOf outs else 0) := by
+  induction outs generalizing off s with
+  | nil => simp [undoOuts, paidOf, hn]
+  | cons o r ih =>
+    unfold undoOuts
+    by_cases hz : (o.addr == "$" || o.amt == 0) = true
+    · simp only [hz, ↓reduceIte]
+      obtain ⟨i1, i2, i3⟩ := ih (off + 1) s hn (fun idx x hx hm => by
+        have := hrows (idx + 1) x (by simpa using hx) hm
+        have hk : off + (idx + 1) = off + 1 + idx := by omega
+        rwa [hk] at this)
+      rw [paidOf_cons_skip o r hz]
+      exact ⟨i1, i2, i3⟩
+    · simp only [hz, Bool.false_eq_true, ↓reduceIte]
+      have hzf : (o.addr == "$" || o.amt == 0) = false := by simpa using hz
+      obtain ⟨u0, hu0, ha0⟩ := hrows 0 o (by simp) hzf
+      simp only [Nat.add_zero] at hu0
+      obtain ⟨i1, i2, i3⟩ := ih (off + 1)
+        { s with U := del s.U (t.id, off), total := if t.coinbase then s.total - o.amt else s.total }
+        (del_nodup _ _ hn) (fun idx x hx hm => by
+          have := hrows (idx + 1) x (by simpa using hx) hm
+          have hk : off + (idx + 1) = off + 1 + idx := by omega
+          rw [hk] at this
+          simp only
+          rw [lookup_del]
+          have hne : ¬ (t.id, off) = (t.id, off + 1 + idx) := by intro e; injection e with _ e2; omega
+          simpa [hne] using this)
+      rw [paidOf_cons_mat o r hz]
+      refine ⟨i1, ?_, ?_⟩
+      · rw [i2]
+        simp only
+        rw [sumU_del _ _ hn]
+        unfold amtAt
+        rw [hu0]
+        simp only [ha0]
+        omega
+      · rw [i3]
+        simp only
+        split <;> omega
+
+/-- the effects of `t` are present in the table: every materialised output (not the fee placeholder, not zero) is a
+row with its amount, no input is a row, the input keys are pairwise distinct and none of them is a key of `t` itself -/
+structure Applied (s : St) (t : Tx) : Prop where
+  outsPresent : ∀ idx o, t.outs[idx]? = some o → (o.addr == "$" || o.amt == 0) = false →
+    ∃ u, lookup s.U (t.id, idx) = some u ∧ u.amt = o.amt
+  insAbsent : ∀ r ∈ t.ins, lookup s.U (r.tx, r.off) = none
+  insNodup : (t.ins.map (fun r => (r.tx, r.off))).Nodup
+  noSelf : ∀ r ∈ t.ins, r.tx ≠ t.id
+
+/-- **undo moves tokens back, it does not create or destroy them**: undoing a transaction whose effects are present
+puts the cited input amounts back and takes the materialised outputs out; the total moves only for a coinbase -/
+theorem undoTx_sum (e : Env) (s : St) (t : Tx) (hn : UNodup s.U) (ha : Applied s t) :
+    UNodup (undoTx e s t).U ∧
+    sumU (undoTx e s t).U = sumU s.U + insAmt t.ins - paidOf t.outs ∧
+    (undoTx e s t).total = s.total - (if t.coinbase then paidOf t.outs else 0) := by
+  obtain ⟨kU, kT, _, _, _⟩ := undoKOut_frame e t t.kout s
+  obtain ⟨r1, r2⟩ := restore_sum t.ins (undoKOut e t t.kout s).U (by rw [kU]; exact hn)
+    (fun r hr => by rw [kU]; exact ha.insAbsent r hr) ha.insNodup
+  unfold undoTx
+  obtain ⟨o1, o2, o3⟩ := undoOuts_sum t t.outs 0
+    { undoKOut e t t.kout s with
+      U := t.ins.foldl (fun u r => put u (r.tx, r.off) ⟨r.addr, r.amt, r.frozen⟩) (undoKOut e t t.kout s).U }
+    r1 (fun idx o ho hm => by
+      simp only [Nat.zero_add]
+      have hk : (t.id, idx) ∉ t.ins.map (fun r => (r.tx, r.off)) := by
+        intro hmem
+        obtain ⟨r, hr, he⟩ := List.mem_map.mp hmem
+        injection he with e1 _
+        exact ha.noSelf r hr e1
+      rw [restoreU_lookup_other _ _ _ hk, kU]
+      exact ha.outsPresent idx o ho hm)
+  refine ⟨o1, ?_, ?_⟩
+  · rw [o2]; simp only; rw [r2, kU]
+  · rw [o3]; simp only; rw [kT]
+
+theorem feeOf_cons_fee (o : Out) (r : List Out) (hd : (o.addr == "$") = true) :
+    feeOf (o :: r) = o.amt + feeOf r := by
+  unfold feeOf
+  simp only [List.filter_cons, hd, ↓reduceIte, List.map_cons, List.sum_cons]
+
+theorem feeOf_cons_other (o : Out) (r : List Out) (hd : ¬ (o.addr == "$") = true) :
+    feeOf (o :: r) = feeOf r := by
+  unfold feeOf
+  simp only [List.filter_cons, hd, Bool.false_eq_true, ↓reduceIte]
+
+/-- taking back the fee rows of a confirmed transaction (rows of the table with their amounts) removes exactly the fee -/
+theorem undoPayFee_sum (t : Tx) (outs : List Out) (off : Nat) (s : St) (hn : UNodup s.U)
+    (hrows : ∀ idx o, outs[idx]? = some o → (o.addr == "$") = true →
+      ∃ u, lookup s.U (t.id, off + idx) = some u ∧ u.amt = o.amt) :
+    UNodup (undoPayFee t outs off s).U ∧ sumU (undoPayFee t outs off s).U = sumU s.U - feeOf outs := by
+  induction outs generalizing off s with
+  | nil => simp [undoPayFee, feeOf, hn]
+  | cons o r ih =>
+    unfold undoPayFee
+    by_cases hd : (o.addr == "$") = true
+    · simp only [hd, ↓reduceIte]
+      obtain ⟨u0, hu0, ha0⟩ := hrows 0 o (by simp) hd
+      simp only [Nat.add_zero] at hu0
+      obtain ⟨i1, i2⟩ := ih (off + 1) { s with U := del s.U (t.id, off) } (del_nodup _ _ hn)
+        (fun idx x hx hm => by
+          have := hrows (idx + 1) x (by simpa using hx) hm
+          have hk : off + (idx + 1) = off + 1 + idx := by omega
+          rw [hk] at this
+          simp only
+          rw [lookup_del]
+          have hne : ¬ (t.id, off) = (t.id, off + 1 + idx) := by intro e; injection e with _ e2; omega
+          simpa [hne] using this)
+      rw [feeOf_cons_fee o r hd]
+      refine ⟨i1, ?_⟩
+      rw [i2]
+      simp only
+      rw [sumU_del _ _ hn]
+      unfold amtAt
+      rw [hu0]
+      simp only [ha0]
+      omega
+    · simp only [hd, Bool.false_eq_true, ↓reduceIte]
+      obtain ⟨i1, i2⟩ := ih (off + 1) s hn (fun idx x hx hm => by
+        have := hrows (idx + 1) x (by simpa using hx) hm
+        have hk : off + (idx + 1) = off + 1 + idx := by omega
+        rwa [hk] at this)
+      rw [feeOf_cons_other o r hd]
+      exact ⟨i1, i2⟩
+
+/-- the effects of an admitted, applied transaction are present (ids are hashes: fresh id, no self-citation) -/
+theorem applied_of_applyTx (s : St) (lh : Int) (t : Tx) (hadm : admitTx s lh t = .ok)
+    (hself : ∀ r ∈ t.ins, r.tx ≠ t.id) : Applied (applyTx s t) t := by
+  obtain ⟨_, hnd, _, _⟩ := XV.C03.admit_sound s lh t hadm
+  refine ⟨?_, XV.C03.consume s t hself, hnd, hself⟩
+  intro idx o ho hm
+  rw [applyTx_lookup_idx s t idx hself, ho]
+  simp only [hm, Bool.false_eq_true, ↓reduceIte]
+  exact ⟨_, rfl, rfl⟩
+
+-- non-vacuity of `undoTx_sum` / `undoPayFee_sum`: a transfer 5 -> 3 + fee 2 whose effects are present; undo gives 5 back
+example :
+    let t : Tx := ⟨1, false, [⟨0, 0, "u0", 5, 0, false⟩], [⟨"u1", 3, 0⟩, ⟨"u2", 0, 0⟩, ⟨"$", 2, 0⟩], [], []⟩
+    let s : St := { U := [((1, 0), ⟨"u1", 3, 0⟩), ((7, 7), ⟨"x", 10, 0⟩)], total := 15 }
+    (t.outs[0]? = some ⟨"u1", 3, 0⟩ ∧ lookup s.U (1, 0) = some ⟨"u1", 3, 0⟩ ∧ lookup s.U (0, 0) = none) ∧
+    sumU (undoTx {} s t).U = sumU s.U + insAmt t.ins - paidOf t.outs ∧ sumU (undoTx {} s t).U = 15 := by decide
+
+example :
+    let t : Tx := ⟨1, false, [⟨0, 0, "u0", 5, 0, false⟩], [⟨"u1", 3, 0⟩, ⟨"$", 2, 0⟩], [], []⟩
+    let s : St := { U := [((1, 1), ⟨"miner", 2, 0⟩), ((1, 0), ⟨"u1", 3, 0⟩)] }
+    sumU (undoPayFee t t.outs 0 s).U = sumU s.U - feeOf t.outs ∧ sumU (undoPayFee t t.outs 0 s).U = 3 := by decide
+
+-- non-vacuity of `Applied`: the state after an admitted transfer satisfies it for that transfer
+example :
+    let t : Tx := ⟨1, false, [⟨0, 0, "u0", 5, 0, false⟩], [⟨"u1", 3, 0⟩, ⟨"u2", 0, 0⟩, ⟨"$", 2, 0⟩], [], []⟩
+    let s : St := { U := [((0, 0), ⟨"u0", 5, 0⟩)] }
+    UNodup (applyTx s t).U ∧ Applied (applyTx s t) t :=
+  ⟨by decide, applied_of_applyTx _ 0 _ (by decide) (by decide)⟩
 
 end XV.C02
